@@ -1,4 +1,5 @@
 import FxVerif.Proofs.C01
+import FxVerif.Proofs.C01Gen
 /-!
 # C01 — bridge events take effect exactly once, strictly in event-nonce order
 
@@ -398,5 +399,114 @@ whose contract executes 3 and then reverts (3 is parked again, 2 is consumed wit
 example : execCallsWith true { pending := [1, 2, 3], log := [] }
     (.call 1 .ok (.call 1 .ok .nil (.call 2 .refund (.call 3 .ok .nil .nil) (.call 3 .ok .nil .nil))) .nil) =
     { pending := [], log := [1, 2, 3] } := by decide
+
+/-! ## round 3 — histories with genesis export / import restarts at arbitrary points
+
+`GOp` = an operation of the model or "export the module state and start a fresh store from that genesis"; `InitGenesis` is
+interpreted from its regenerated statement list (`Gen.C01.genesisImport`, see `Model/C01Gen.lean`). -/
+
+abbrev greach (p : Params) (ops : List GOp) : State := grun (init p) ops
+
+/-- a restart keeps the last observed nonce and the observation / execution history, and keeps no parked claim -/
+theorem genesis_keeps_observation_state (s : State) :
+    (roundTrip s).lastObserved = s.lastObserved ∧ (roundTrip s).observedLog = s.observedLog ∧
+    (roundTrip s).executedLog = s.executedLog ∧ (∀ a ∈ (roundTrip s).atts, a ∈ s.atts) := by
+  obtain ⟨h1, _, h3, _, h5, h6, _, _⟩ := roundTrip_fields s
+  exact ⟨h1, h5, h6, h3⟩
+
+/-- one step of a history with restarts moves `lastObserved` by 0 or by exactly 1 -/
+theorem lastObserved_gstep (s : State) (op : GOp) :
+    (gstep s op).1.lastObserved = s.lastObserved ∨ (gstep s op).1.lastObserved = s.lastObserved + 1 := by
+  cases op with
+  | op o => exact lastObserved_step s o
+  | genesis => exact Or.inl (genesis_keeps_observation_state s).1
+
+/-- contiguity over restarts: the nonces of the observation log are exactly 1 … lastObserved, in order -/
+theorem observedLog_contiguous_g (p : Params) (ops : List GOp) :
+    (greach p ops).observedLog.map Prod.fst = List.range' 1 (greach p ops).lastObserved :=
+  (inv_grun _ ops (inv_init p)).logC
+
+theorem observed_nonce_applied_once_g (p : Params) (ops : List GOp) : ((greach p ops).observedLog.map Prod.fst).Nodup := by
+  rw [observedLog_contiguous_g]; exact List.nodup_range'
+
+/-- an attestation observed in a state reached with restarts is the one in the observation log, one hash per nonce -/
+theorem observed_unique_g (p : Params) (ops : List GOp) (a b : Att) (ha : a ∈ (greach p ops).atts) (hb : b ∈ (greach p ops).atts)
+    (hao : a.observed = true) (hbo : b.observed = true) (hn : a.nonce = b.nonce) : a.hash = b.hash := by
+  have hI := inv_grun _ ops (inv_init p)
+  have h1 := hI.obsIn a ha hao
+  have h2 := hI.obsIn b hb hbo
+  rw [← hn] at h2
+  exact log_unique (observed_nonce_applied_once_g p ops) h1 h2
+
+/-- deferred effects at most once, only after observation — over restarts -/
+theorem pending_executes_once_g (p : Params) (ops : List GOp) :
+    (greach p ops).executedLog.Nodup ∧
+    (∀ n ∈ (greach p ops).executedLog, 1 ≤ n ∧ n ≤ (greach p ops).lastObserved) ∧
+    (∀ n ∈ (greach p ops).pending, 1 ≤ n ∧ n ≤ (greach p ops).lastObserved ∧ n ∉ (greach p ops).executedLog) := by
+  have hI := inv_grun _ ops (inv_init p)
+  exact ⟨hI.execN, hI.execR, fun n hn => ⟨(hI.pendR n hn).1, (hI.pendR n hn).2, hI.pendX n hn⟩⟩
+
+/-- WHAT A RESTART LOSES: `ExportGenesis` does not export the parked claims (extracted `exportHasPending = false`), so after a
+restart nothing is parked and every `executeClaim` finds nothing — an observed send-to-fx / bridge-call event that was still
+parked at export time never takes effect afterwards ("at most once" holds, "exactly once" does not; recorded as a finding) -/
+theorem genesis_drops_parked_claims (s : State) (n : Nat) (o : Outcome) (c : Calls) :
+    (roundTrip s).pending = [] ∧ (step (roundTrip s) (.exec n o c)).2 = .notFound := by
+  have hp := (roundTrip_fields s).2.1
+  refine ⟨hp, ?_⟩
+  have hc : execChecksPending = true := by decide
+  simp [step, execStep, hc, hp]
+
+/-- an oracle votes at most once per nonce over restarts: no vote list has a duplicate, an oracle has voted for at most one
+claim hash per nonce, every vote sits at a nonce not above the voter's EFFECTIVE last nonce (stored key, or the fallback
+`lastObserved - 1` when `InitGenesis` wrote none).  The per-oracle last nonces are not exported: this is a statement about
+their reconstruction from the votes of the exported attestations. -/
+theorem oracle_vote_once_g (p : Params) (ops : List GOp) :
+    (∀ a ∈ (greach p ops).atts, a.votes.Nodup) ∧
+    (∀ a ∈ (greach p ops).atts, ∀ b ∈ (greach p ops).atts, ∀ o, a.nonce = b.nonce → o ∈ a.votes → o ∈ b.votes → a.hash = b.hash) ∧
+    (∀ a ∈ (greach p ops).atts, ∀ o ∈ a.votes, a.nonce ≤ effLast (greach p ops) o) := by
+  have hW := winv_grun (by decide) _ ops (winv_init p)
+  exact ⟨hW.w2.1, hW.w2.2, hW.w1⟩
+
+/-- hence, in every state reached with restarts, a claim is accepted only for a nonce ABOVE every nonce its oracle has a
+vote on: no re-vote after an export / import -/
+theorem no_revote_g (p : Params) (ops : List GOp) (w i n h : Nat) (k : Kind) (e : Nat)
+    (hok : (step (greach p ops) (.claim w i n h k e)).2 = .ok) :
+    ∃ o, (greach p ops).byBridger.get (voter w i) = some o ∧ ∀ a ∈ (greach p ops).atts, o ∈ a.votes → a.nonce < n := by
+  simp only [step] at hok
+  obtain ⟨o, _, hgo, _, _, hn, _⟩ := claim_ok _ w i n h k hok
+  refine ⟨o, hgo, ?_⟩
+  intro a ha hoa
+  have := (oracle_vote_once_g p ops).2.2 a ha o hoa
+  omega
+
+/-- the reconstruction reads the last observed nonce as its fallback, so it must run after `SetLastObservedEventNonce`;
+`genesis_import_order` (Props.C02) records that it does.  With the two the other way round an oracle that voted only for
+already observed nonces gets a key below them and can vote for an observed nonce again: -/
+theorem rebuild_before_lastObserved_allows_revote :
+    let g : Genesis := { lastObserved := 5, atts := [⟨3, 0, [1], true⟩] }
+    (importWith [.setLastObserved, .loadAtts, .rebuildLastNonce] g).lastNonce = [] ∧
+    (importWith [.loadAtts, .rebuildLastNonce, .setLastObserved] g).lastNonce = [(1, 3)] := by decide
+
+/-! ### non-vacuity -/
+
+/-- nonce 1 observed and parked, nonce 2 gets one vote, restart, the voter of nonce 2 is refused for nonce 2 and the
+parked claim is gone -/
+def restartDemo : List GOp :=
+  let u : Nat := powerReduction
+  [ .op (.gov [1, 2, 3] true),
+    .op (.bond 1 101 201 (34 * u) true), .op (.bond 2 102 202 (33 * u) true), .op (.bond 3 103 203 (33 * u) true),
+    .op (.claim 101 101 1 0 .pending 1001), .op (.claim 103 103 1 0 .pending 1001),   -- nonce 1 observed, parked
+    .op (.claim 101 101 2 0 .other 1002),
+    .genesis,
+    .op (.claim 101 101 2 1 .other 1002),     -- refused (voted for nonce 2 already, now with a competing claim)
+    .op (.exec 1 .ok .nil),                   -- not found: the parked claim was not exported
+    .op (.claim 102 102 1 0 .pending 1001),   -- oracle 2 never voted: fallback lastObserved - 1 = 0, votes for 1 then 2
+    .op (.claim 102 102 2 0 .other 1002) ]
+
+example : (greach witnessParams (restartDemo.take 7)).pending = [1] := by decide
+example : (greach witnessParams (restartDemo.take 8)).pending = [] ∧ (greach witnessParams (restartDemo.take 8)).lastNonce = [(1, 2), (3, 1)] := by decide
+example : (gstep (greach witnessParams (restartDemo.take 8)) (.op (.claim 101 101 2 1 .other 1002))).2 = .nonContiguous := by decide
+example : (gstep (greach witnessParams (restartDemo.take 9)) (.op (.exec 1 .ok .nil))).2 = .notFound := by decide
+example : (greach witnessParams restartDemo).lastObserved = 2 ∧ (greach witnessParams restartDemo).observedLog = [(1, 0), (2, 0)] := by decide
 
 end FxVerif.Props.C01
